@@ -24,6 +24,8 @@ def prove_eq(st, e):
         return True, "entailed"
     if isinstance(r, tuple):
         return False, f"difference is the non-zero constant {r[1]}"
+    if st.entails_neq(e):
+        return False, f"the difference {st.reduce(e)} is provably non-zero"
     return None, f"residual {st.reduce(e)}"
 
 
